@@ -37,7 +37,17 @@ pub struct Case {
     pub thou: String,
 }
 
-fn grid(d: u8, tier: Tier) -> Vec<f64> {
+/// the value grid of a digit count, built once per (digits, tier) and shared (the generator runs
+/// on one thread: rebuilding a 40 000-element grid for every case made it the bottleneck)
+fn grid(d: u8, tier: Tier) -> std::sync::Arc<Vec<f64>> {
+    use std::collections::HashMap;
+    use std::sync::{Arc, Mutex, OnceLock};
+    static CACHE: OnceLock<Mutex<HashMap<(u8, bool), Arc<Vec<f64>>>>> = OnceLock::new();
+    let mut g = CACHE.get_or_init(Default::default).lock().unwrap();
+    g.entry((d, tier == Tier::Thorough)).or_insert_with(|| Arc::new(build_grid(d, tier))).clone()
+}
+
+fn build_grid(d: u8, tier: Tier) -> Vec<f64> {
     let mut v: Vec<f64> = Vec::new();
     let unit = 10f64.powi(-(d as i32));
     let half = unit / 2.0;
@@ -227,6 +237,7 @@ impl Prop for C07 {
             for code in sp.rated() {
                 let c = &sp.currencies[&code];
                 let key = (c.digits, c.symbol_on_left, c.space);
+                // quick: one currency per (digits, side, blank) combination; thorough: all rated currencies
                 if tier == Tier::Thorough || seen.insert(key) {
                     picks.push(code);
                 }
